@@ -130,6 +130,9 @@ func c03(c *Ctx) {
 			// The round trip is C01's property, but text that no longer parses also no longer does what the
 			// script did: ask bash, which runs whatever it is given (seeded change C03-3: a `<<-` delimiter
 			// written with spaces swallows the rest of the file).  Equal behaviour under bash = C01's business only.
+			if strings.Contains(j.src, "\r") {
+				return res{skipped: "formatted-output-does-not-parse (C01), CR in source: no bash verdict"}
+			}
 			b1 := runShell(c, "bash", j.src)
 			b2 := runShell(c, "bash", out)
 			for retry := 0; retry < 2 && !b1.TimedOut && !b2.TimedOut && !c03Same(b1, b2); retry++ {
@@ -159,7 +162,8 @@ func c03(c *Ctx) {
 		if !o1.TimedOut && !o2.TimedOut && !c03Same(o1, o2) {
 			r.fails = append(r.fails, Failure{Witness: "interp " + w, What: fmt.Sprintf("interp: original gives status %d stdout %q; formatted (%s) gives status %d stdout %q; formatted text: %q", o1.Status, clip(o1.Stdout), j.f.name, o2.Status, clip(o2.Stdout), clip(out))})
 		}
-		if j.bash && j.lang == syntax.LangBash {
+		// bash does not take CR LF line ends (mvdan/sh accepts them on purpose): no bash verdict for such sources
+		if j.bash && j.lang == syntax.LangBash && !strings.Contains(j.src, "\r") {
 			b1 := runShell(c, "bash", j.src)
 			b2 := runShell(c, "bash", out)
 			for retry := 0; retry < 2 && !c03Same(b1, b2); retry++ {
